@@ -260,7 +260,10 @@ fn run_class(class: &str, big: bool) -> ClassResult {
 // -------------------------------------------------------- directed programs
 
 /// (id, gate, items, main body, expected stdout)
-const DIRECTED: [(&str, &str, &str, &str, &str); 28] = [
+const DIRECTED: [(&str, &str, &str, &str, &str); 29] = [
+    // trait objects made from function types that differ only in `()` / `(unit)`, and from Vec / Ref / array types: the
+    // vtable constructors and wrappers are named after the receiver type
+    ("dyn-for-structural-types", "", "trait Show { fn show(Self) -> string; }\nimpl Show for () -> int32 { fn show(self: () -> int32) -> string { \"thunk \" + int32_to_string(self()) } }\nimpl Show for (unit) -> int32 { fn show(self: (unit) -> int32) -> string { \"unit-fn \" + int32_to_string(self(())) } }\nimpl Show for (int32) -> int32 { fn show(self: (int32) -> int32) -> string { \"int-fn \" + int32_to_string(self(1)) } }\nimpl Show for Vec[int32] { fn show(self: Vec[int32]) -> string { \"vec \" + int32_to_string(vec_len(self)) } }\nimpl Show for Ref[int32] { fn show(self: Ref[int32]) -> string { \"ref \" + int32_to_string(ref_get(self)) } }\nimpl Show for [int32; 2] { fn show(self: [int32; 2]) -> string { \"arr \" + int32_to_string(array_get(self, 1)) } }\nfn seven() -> int32 { 7 }\nfn eight(u: unit) -> int32 { 8 }\nfn nine(x: int32) -> int32 { x + 8 }\nfn use_it(x: dyn Show) -> string { Show::show(x) }", "let a: dyn Show = seven; let b: dyn Show = eight; let c: dyn Show = nine; let v: Vec[int32] = vec_push(vec_new(), 4); let d: dyn Show = v; let r: Ref[int32] = ref(5); let e: dyn Show = r; let arr: [int32; 2] = [1, 6]; let f: dyn Show = arr; let _ = string_println(use_it(a)); let _ = string_println(use_it(b)); let _ = string_println(use_it(c)); let _ = string_println(use_it(d)); let _ = string_println(use_it(e)); let _ = string_println(use_it(f));", "thunk 7\nunit-fn 8\nint-fn 9\nvec 1\nref 5\narr 6\n"),
     ("dyn-trait-predeclared-name", "", "trait error { fn m(Self) -> int32; }\nstruct Q { a: int32 }\nimpl error for Q { fn m(self: Q) -> int32 { self.a } }\nfn through(d: dyn error) -> int32 { error::m(d) }", "let q = Q { a: 5 }; let _ = string_println(int32_to_string(through(q)));", "5\n"),
     // a second package (after the marker line): the same variant name in enums of two packages, and a trait of another package used as dyn
     ("two-packages-same-variant", "", "package Main\nimport Net\nenum Door { Open, Closed(string) }\nstruct Q { a: int32 }\nimpl Net::Show for Q { fn show(self: Q) -> int32 { self.a } }\nfn through(d: dyn Net::Show) -> int32 { Net::Show::show(d) }\n//>> FILE Net/lib.gom\npackage Net\nenum Status { Up, Closed(int32) }\ntrait Show { fn show(Self) -> int32; }\nfn code(s: Status) -> int32 { match s { Status::Up => 0, Status::Closed(n) => n } }\n//>> END", "let d = Door::Closed(\"x\"); let s = Net::Status::Closed(3); let _ = match d { Door::Open => string_println(\"o\"), Door::Closed(t) => string_println(t) }; let _ = string_println(int32_to_string(Net::code(s))); let q = Q { a: 7 }; let _ = string_println(int32_to_string(through(q)));", "x\n3\n7\n"),
@@ -535,7 +538,7 @@ impl Check for C19 {
         behave::calibrate()
     }
     fn rule(&self) -> String {
-        "mangle: the compiler's own name-encoding functions (go_ident, go_type_name_for, ref_struct_name, array_helper_fn_name, trait_impl_fn_name, inherent_method_fn_name) are called on EVERY identifier over {A,B,a,b,_,1} of length <= 3 (4 thorough) and on every pair / (trait,type) / (type,method) / (type,length) combination of the length <= 2 (3) identifiers (about 10^3..10^6 entities per class); two distinct entities with one Go identifier, or a user name that comes out as a Go keyword or predeclared name, is a violation. directed: 24 hand-built programs, one per collision family (user function named like a Go builtin, keyword, runtime helper, compiler temporary or mono instance; user type named like a generated tuple/ref/closure type; case-folded Ref structs; underscore-joined tuple and trait-impl names; keyword field names ...): the program must build and print the expected output. renamed*: type-directed random programs whose function, type, field and local names are drawn from pools of Go keywords, predeclared identifiers, runtime-helper and temporary look-alikes: the emitted Go must type-check (no redeclaration / capture) and behave as the name-independent reference interpreter says (= behaviour is invariant under renaming). Families closed by open known findings are skipped and counted. Non-trivial = program declares an item or field with a hostile name; distinct by text.".into()
+        "mangle: the compiler's own name-encoding functions (go_ident, go_type_name_for, ref_struct_name, array_helper_fn_name, trait_impl_fn_name, inherent_method_fn_name) are called on EVERY identifier over {A,B,a,b,_,1} of length <= 3 (4 thorough) and on every pair / (trait,type) / (type,method) / (type,length) combination of the length <= 2 (3) identifiers (about 10^3..10^6 entities per class); two distinct entities with one Go identifier, or a user name that comes out as a Go keyword or predeclared name, is a violation. directed: 29 hand-built programs, one per collision family (user function named like a Go builtin, keyword, runtime helper, compiler temporary or mono instance; user type named like a generated tuple/ref/closure type; case-folded Ref structs; underscore-joined tuple and trait-impl names; keyword field names ...): the program must build and print the expected output. renamed*: type-directed random programs whose function, type, field and local names are drawn from pools of Go keywords, predeclared identifiers, runtime-helper and temporary look-alikes: the emitted Go must type-check (no redeclaration / capture) and behave as the name-independent reference interpreter says (= behaviour is invariant under renaming). Families closed by open known findings are skipped and counted. Non-trivial = program declares an item or field with a hostile name; distinct by text.".into()
     }
     fn assumptions(&self) -> Vec<String> {
         vec![
